@@ -296,7 +296,20 @@ func c19Spaces(c *fw.Ctx) {
 			sp = append(sp, spelled{[][]byte{l, []byte("nl")}, t + ".nl."})
 		}
 	}
-	c.Space("spellings", fmt.Sprintf("%d spellings of the 20 names L.nl. with L of ≤2 octets from {a, A, '.', 0xe9}: every octet as \\DDD, as \\c and literally (raw for 0xe9): the unary helpers on each (with and without the final dot), CompareDomainName / IsSubDomain on all ordered pairs against the labels; non-trivial: the spelling is not the unpacker's", len(sp)), true,
+	// a backslash followed by one or two digits (and then something else) is an escaped digit, not a \DDD escape
+	for _, pre := range []string{"", "a", "\\."} {
+		for _, esc := range []string{"\\1", "\\12", "\\1a", "\\12a", "\\1\\2", "\\1\\.", "\\12\\."} {
+			for _, rest := range []string{".nl.", ".b.nl.", "x.nl.", ".\\9.nl."} {
+				name := pre + esc + rest
+				q := rn.Parse(name)
+				if !q.OK || !q.FQDN {
+					panic("harness: " + name)
+				}
+				sp = append(sp, spelled{q.Labels, name})
+			}
+		}
+	}
+	c.Space("spellings", fmt.Sprintf("%d spellings: of the 20 names L.nl. with L of ≤2 octets from {a, A, '.', 0xe9}: every octet as \\DDD, as \\c and literally (raw for 0xe9), plus 84 names in which a backslash is followed by one or two digits only (an escaped digit, not a \\DDD escape): the unary helpers on each (with and without the final dot), CompareDomainName / IsSubDomain on all ordered pairs against the labels; non-trivial: the spelling is not the unpacker's", len(sp)), true,
 		func(emit func(func(*fw.R))) {
 			for i := range sp {
 				a := sp[i]
